@@ -144,3 +144,9 @@ func (t *Torrent) VerifFinish() {
 	close(t.Done)
 	t.Pieces.Del()
 }
+
+// VerifRequest is the scheduler's request(): it commands p to request the
+// given chunks and counts them as in flight if p's queue accepts the command.
+func (t *Torrent) VerifRequest(p *peer.Peer, indices []uint32) error {
+	return request(t, p, indices)
+}
